@@ -843,6 +843,206 @@ def gen_corner_scenario(rng):
     return sc, ops
 
 
+WHOLE_OBJ = ("len", "toll", "step", "checker")
+
+
+def run_whole(ck, hbin, hchk, sc, rng, tag):
+    """smoothBSpline, findBetterGoal and perturbPath as WHOLE routines in lock-step with their models: scripted uniform / half-normal
+    draws through the rng_ proxy, a scripted state sampler, GoalStates as the (cycling) goal region, the routine's own isValid calls
+    and the checkMotion transcript as oracles; + the usual oracle on the real outputs"""
+    issues = []
+    if sc.kind not in ("rv2", "rv3") or len(sc.path) < 2:
+        return issues
+    L = max(path_len(sc, sc.path), 1e-3)
+    n = len(sc.path)
+    ops = []
+    for _ in range(2):
+        ops.append(("bspline", "bsplines %d %s" % (rng.choice([0, 1, 2, 3, 3, 5]) if n <= 20 else rng.choice([0, 1, 2]),
+                                                   B(rng.choice([2.220446049250313e-16, 1e-3, L / 100, L / 10])))))
+    for _ in range(4):
+        k = rng.choice([5, 60, 60])
+        us = [rng.unit() if rng.chance(7, 8) else rng.choice([0.0, 0.5, 1.0 - 2.0 ** -53, 0.25]) for _ in range(k)]
+        ops.append(("bettergoal", " ".join(["bgoal", rng.choice(WHOLE_OBJ), str(rng.choice([1, 10, 40])), B(rng.choice([1.0, 0.33, 0.6, 0.0])),
+                                             B(rng.choice([0.005, 0.0, 0.05, 0.5])), str(k)] + [B(x) for x in us])))
+    if n <= 8:
+        for j in range(10):
+            kh = rng.choice([0, 3, 3])
+            hs = [rng.unit() if rng.chance(3, 4) else rng.choice([0.0, 1.0, 0.5]) for _ in range(kh)]
+            ks = rng.choice([0, 3, 3])
+            smp = []
+            for _ in range(ks):
+                r_ = rng.below(3)
+                if r_ == 0 and n >= 3:
+                    # inside a corner: the midpoint of the chord across a vertex (moving a point near that vertex towards it shortens)
+                    a_ = rng.range(0, n - 3)
+                    smp.append(tuple((sc.path[a_][d] + sc.path[a_ + 2][d]) / 2 for d in range(sc.pdim)))
+                elif r_ == 1:
+                    q = sc.path[rng.below(n)]
+                    smp.append(tuple(min(max(q[d] + rng.uniform(-2.0, 2.0), 0.05), 9.95) for d in range(sc.pdim)))
+                else:
+                    smp.append(tuple(rng.uniform(0.1, 9.9) for _ in range(sc.pdim)))
+            step = rng.choice([0.3, 1.0, 0.05, 0.15, 0.6, L, 3 * L]) if j >= 5 else rng.choice([0.1, 0.2, 0.4, 0.8])
+            ops.append(("perturb", " ".join(["perturbs", rng.choice(WHOLE_OBJ), B(step), str(rng.choice([1, 2, 3])),
+                                             str(rng.choice([0, 1, 2, 3])), B(rng.choice([0.005, 0.0, 0.05, 0.3])), str(kh)] + [B(x) for x in hs] +
+                                            [str(ks)] + [B(x) for s_ in smp for x in s_])))
+    if 3 <= n <= 8:
+        # directed: under the length objective the most expensive segment is the longest one (index k0); a half-normal draw near 1 (costBias = back * (1 - h) small) puts the
+        # perturbed point just behind its first vertex k0, and a sample inside that corner makes the perturbation an improvement
+        seg = [dist(sc, sc.path[i], sc.path[i + 1]) for i in range(n - 1)]
+        k0 = max(range(n - 1), key=lambda i: seg[i])
+        if k0 >= 1:
+            mid = tuple((sc.path[k0 - 1][d] + sc.path[k0 + 1][d]) / 2 for d in range(sc.pdim))
+            for _ in range(5):
+                hs = [1.0 - rng.choice([0.0, 0.0, 1e-4, 1e-3, 3e-3]) for _ in range(3)]   # costBias = back * (1 - h): below step / 2
+                smp = [mid, tuple(m_ + rng.uniform(-0.2, 0.2) for m_ in mid), mid]
+                ops.append(("perturb", " ".join(["perturbs", "len", B(rng.choice([0.05, 0.1, 0.3, 0.6])), str(rng.choice([1, 2, 3])), "0",
+                                                 B(rng.choice([0.0, 0.005, 0.02, 0.05, 0.2])), "3"] + [B(x) for x in hs] + ["3"] +
+                                                [B(x) for s_ in smp for x in s_])))
+    hdr = ["pathops", sc.env_line(), sc.states_line("path", sc.path), sc.states_line("goals", sc.goals)]
+    chk0, rc0, _ = run_h(ck, hbin, hdr, timeout=60)
+    if chk0 is None or len(chk0) < 3 or chk0[1] != "ok chk=1":
+        return issues
+    outs, crashes = run_ops(ck, hbin, hdr, ops)
+    for i, rc, err in crashes:
+        routine, line = ops[i]
+        ck.count("crash:whole-" + routine)
+        issues.append(dict(kind="oracle", routine=routine, clause="crash", cls=classify_crash(line, err),
+                           detail="the routine does not return (rc=%s): %s" % (rc, err[:700] if rc != "timeout" else "no result within 30 s"),
+                           script=hdr + [line], observed=[err[:1500]]))
+    dscript = list(hdr)
+    dmap = []
+    for idx, ((routine, line), o) in enumerate(zip(ops, outs)):
+        if o is None:
+            continue
+        ck.count("op:whole-" + routine)
+        try:
+            res = parse_result(o, sc.w)
+        except Exception as e:
+            issues.append(dict(kind="oracle", routine=routine, clause="protocol", detail="unparsable: %r %s" % (e, o[:80]), script=hdr + [line], observed=[o]))
+            continue
+        t = line.split()
+        objective = t[1] if routine in ("bettergoal", "perturb") else "len"
+        fails = oracle(sc, routine, line, res, objective, routine == "bettergoal")
+        changed = res["out"] != [tuple(B(x) for x in s_) for s_ in sc.path]
+        ck.case((tag, "whole", idx, line[:40]), changed)
+        if changed:
+            ck.count("changed:whole-" + routine)
+        issues += [dict(kind="oracle", routine=routine, clause=c_, detail=d_, objective=objective, script=hdr + [line], observed=[o]) for c_, d_ in fails]
+        dl = line
+        if routine == "bspline":
+            dl += " " + " ".join(res.get("iv_tokens", ["iv", "0"]))
+        dl += " " + " ".join(res["cm_tokens"])
+        dscript.append(dl)
+        dmap.append((routine, line, res, o, dl))
+    if dmap:
+        model, rc2, err2 = ck.run_bin(ck.driver(DRIVER), dscript, timeout=300)
+        if rc2 != 0 or model is None or len(model) != len(dmap) + 3:
+            issues.append(dict(kind="corr", routine="driver", clause="driver", detail="driver rc=%s lines=%s %s" % (rc2, None if model is None else len(model), (err2 or "")[-300:]),
+                               script=dscript, observed=model or []))
+            return issues
+        for (routine, line, res, o, dl), m in zip(dmap, model[3:]):
+            ck.traces_validated += 1
+            if m == "idx-error":
+                issues.append(dict(kind="idx", routine=routine, clause="indices_in_range", cls="model-index-error",
+                                   detail="checked indexing fails in the whole-routine model: the routine indexes a vector out of range",
+                                   script=hdr + [line], observed=[o], model=[m]))
+            elif canon(res["prefix"]) != canon(m):
+                issues.append(dict(kind="corr", routine=routine, clause="lockstep", detail="whole-routine model and implementation differ",
+                                   script=hdr + [line], dscript=dscript[:4] + [dl], observed=[res["prefix"]], model=[m]))
+    return issues
+
+
+def gen_perturb_band(rng):
+    """directed for perturbPath (whole routine, lock-step): under the length objective a perturbation is never accepted (the new point is
+    stepSize away from the perturbed one while `before`/`after` are at most stepSize/2 away along the path), so accepted steps need a
+    state-cost objective: a vertical path with ONE vertex inside the toll band 6 < y < 7 (cost 12, else 1); the half-normal draw is chosen so
+    that the perturbed point is that vertex, the samples lie above / below the band, and step / snap vary so that `before` and `after`
+    are snapped or not, on the same or on different segments"""
+    sc = Scenario()
+    sc.kind, sc.pdim, sc.w = "rv2", 2, 2
+    sc.res = 0.01
+    x = rng.choice([rng.uniform(0.5, 2.7), rng.uniform(4.8, 9.5)])
+    ys = [6.5]
+    lo_n, hi_n = rng.range(1, 3), rng.range(1, 3)
+    y = 6.5
+    for _ in range(lo_n):
+        y -= rng.choice([0.75, 1.0, 1.5, 0.6])
+        ys.insert(0, y)
+    y = 6.5
+    for _ in range(hi_n):
+        y += rng.choice([0.75, 1.0, 1.5, 0.6])
+        ys.append(y)
+    path = [(x + rng.uniform(-0.02, 0.02) * (0 if abs(v - 6.5) < 1e-9 else 1), v) for v in ys]
+    sc.path = path
+    sc.goals = [path[-1]]
+    n = len(path)
+    kb = lo_n                      # index of the band vertex
+    seg = [dist(sc, path[i], path[i + 1]) for i in range(n - 1)]
+
+    def sc_cost(q):
+        return 1.0 + (24.0 if 3.0 < q[0] < 4.5 else 0.0) + (11.0 if 6.0 < q[1] < 7.0 else 0.0)
+    cost = [0.5 * seg[i] * (sc_cost(path[i]) + sc_cost(path[i + 1])) for i in range(n - 1)]
+    # distCostIndices is sorted by cost, highest first (stable): its first entry is the first maximal segment k0
+    k0 = max(range(n - 1), key=lambda i: (cost[i], -i))
+    back = sum(seg)
+    ds = [sum(seg[:i]) for i in range(n)]
+    bias = ds[kb] - ds[k0]          # distTo = dists[k0] + costBias must be dists[kb]
+    ops = []
+    if 0.0 <= bias <= seg[k0] + 1e-12:
+        h = 1.0 - bias / back
+        for _ in range(14):
+            step = rng.choice([1.2, 1.5, 2.0, 3.0, 2.0 * 0.75, 2.0 * 1.0, 2.0 * 0.6, 0.9])
+            smp = []
+            for _ in range(3):
+                smp.append((min(max(x + rng.uniform(-1.0, 1.0), 0.1), 9.9), rng.choice([rng.uniform(7.3, 9.5), rng.uniform(3.5, 5.7), rng.uniform(6.1, 6.9)])))
+            hs = [h, h, h] if rng.chance(3, 4) else [h, rng.unit(), h]
+            ops.append(("perturb", " ".join(["perturbs", "toll", B(step), str(rng.choice([1, 2, 3])), "0", B(rng.choice([0.0, 0.005, 0.02, 0.1, 0.3])), "3"] +
+                                            [B(v) for v in hs] + ["3"] + [B(v) for q in smp for v in q])))
+    return sc, ops
+
+
+def run_whole_ops(ck, hbin, sc, ops, tag):
+    """lock-step + oracle for prepared whole-routine ops (perturbs / bgoal / bsplines lines)"""
+    issues = []
+    hdr = ["pathops", sc.env_line(), sc.states_line("path", sc.path), sc.states_line("goals", sc.goals)]
+    chk0, rc0, _ = run_h(ck, hbin, hdr, timeout=60)
+    if chk0 is None or len(chk0) < 3 or chk0[1] != "ok chk=1" or not ops:
+        return issues
+    outs, crashes = run_ops(ck, hbin, hdr, ops)
+    for i, rc, err in crashes:
+        issues.append(dict(kind="oracle", routine=ops[i][0], clause="crash", cls=classify_crash(ops[i][1], err),
+                           detail="the routine does not return (rc=%s): %s" % (rc, err[:700]), script=hdr + [ops[i][1]], observed=[err[:1500]]))
+    dscript, dmap = list(hdr), []
+    for idx, ((routine, line), o) in enumerate(zip(ops, outs)):
+        if o is None:
+            continue
+        ck.count("op:whole-" + routine)
+        res = parse_result(o, sc.w)
+        objective = line.split()[1]
+        fails = oracle(sc, routine, line, res, objective, routine == "bettergoal")
+        changed = res["out"] != [tuple(B(v) for v in s_) for s_ in sc.path]
+        ck.case((tag, "whole-directed", idx, line[:40]), changed)
+        if changed:
+            ck.count("changed:whole-" + routine)
+            ck.count("changed:whole-%s:%+d-states" % (routine, len(res["out"]) - len(sc.path)))
+        issues += [dict(kind="oracle", routine=routine, clause=c_, detail=d_, objective=objective, script=hdr + [line], observed=[o]) for c_, d_ in fails]
+        dl = line + " " + " ".join(res["cm_tokens"])
+        dscript.append(dl)
+        dmap.append((routine, line, res, o, dl))
+    model, rc2, err2 = ck.run_bin(ck.driver(DRIVER), dscript, timeout=300)
+    if rc2 != 0 or model is None or len(model) != len(dmap) + 3:
+        return issues + [dict(kind="corr", routine="driver", clause="driver", detail="driver rc=%s" % rc2, script=dscript, observed=model or [])]
+    for (routine, line, res, o, dl), m in zip(dmap, model[3:]):
+        ck.traces_validated += 1
+        if m == "idx-error":
+            issues.append(dict(kind="idx", routine=routine, clause="indices_in_range", cls="model-index-error",
+                               detail="checked indexing fails in the whole-routine model", script=hdr + [line], observed=[o], model=[m]))
+        elif canon(res["prefix"]) != canon(m):
+            issues.append(dict(kind="corr", routine=routine, clause="lockstep", detail="whole-routine model and implementation differ",
+                               script=hdr + [line], dscript=dscript[:4] + [dl], observed=[res["prefix"]], model=[m]))
+    return issues
+
+
 def gen_toll_scenario(rng):
     """directed for findBetterGoal under a cost field that is NOT proportional to length along a segment: a left-to-right path whose
     vertices avoid the toll corridor 3 < x < 4.5 (so the path itself crosses it for free under the end-point trapezoid rule) and
@@ -1153,6 +1353,7 @@ def run(ck):
         futs = [ex.submit(run_scenario, ck, hbin, hchk, sc, ops, "gen", i) for i, sc, ops, _ in jobs]
         futs += [ex.submit(run_hybrid, ck, hbin, sc, r.fork("hyb")) for i, sc, ops, r in jobs if sc.kind != "se2"]
         futs += [ex.submit(run_repair, ck, hbin, sc, r.fork("repair")) for i, sc, ops, r in jobs if sc.kind != "se2"]
+        futs += [ex.submit(run_whole, ck, hbin, hchk, sc, r.fork("whole"), i) for i, sc, ops, r in jobs if sc.kind != "se2"]
         for j in range(40 if ck.tier == "quick" else 300):
             futs.append(ex.submit(run_hybridseq, ck, hbin, ck.rng.fork("hseq%d" % j)))
         for j in range(25 if ck.tier == "quick" else 200):
@@ -1161,6 +1362,10 @@ def run(ck):
                 continue
             ck.count("scenario:toll-corridor")
             futs.append(ex.submit(run_scenario, ck, hbin, hchk, got[0], got[1], "toll", j))
+        for j in range(30 if ck.tier == "quick" else 250):
+            bsc, bops = gen_perturb_band(ck.rng.fork("band%d" % j))
+            ck.count("scenario:perturb-band")
+            futs.append(ex.submit(run_whole_ops, ck, hbin, bsc, bops, "band%d" % j))
         for j in range(8 if ck.tier == "quick" else 40):
             csc, cops = gen_corner_scenario(ck.rng.fork("corner%d" % j))
             ck.count("scenario:corner-zigzag")
